@@ -428,8 +428,50 @@ class C20(Base):
         lines2 += ["query DispatchedCounts %s %s %s %s" % (hx("PROTOCOL_IBC"), hx("channel-0"), hx("PROTOCOL_HYPERLANE"), hx("7")),
                    "query DispatchedCounts %s %s %s %s" % (hx("PROTOCOL_IBC"), hx("channel-0"), hx("PROTOCOL_HYPERLANE"), hx("0")), "export"]
         f2 = {"msg": ["res", "st"], "recv": ["ack", "st"], "recvh": ["ack"], "query": ["res", "out", "next", "total"], "export": ["st"]}
+        # identifiers as a ledger loaded from a genesis holds them — free-form counterparties of the internal protocol with blanks, tabs,
+        # colons, per-cent signs, digits only; the widest numbers of the bridges —: each one is found under exactly its own spelling by
+        # the direct lookups, listed under it by source and by destination, exported and imported as it stands
+        lines3, _ = scen.base_setup()
+        odd = ["noble", "noble hub", "noble\tgrand-1", " noble", "noble ", "no:ble", "4:noble", "100%d", "%s", "7", "07", "a b c d", "~", "{}"]
+        amts, cnts = [], []
+        for i, o_ in enumerate(odd):
+            amts.append("1|%s|4|%s|%s|%d|%d" % (hx("channel-0"), hx(o_), hx("uusdc"), 100 + i, 50 + i))
+            amts.append("4|%s|2|%s|%s|%d|%d" % (hx(o_), hx(str(i)), hx("uusdc"), 200 + i, 150 + i))
+            cnts.append("1|%s|4|%s|%d" % (hx("channel-0"), hx(o_), 1 + i))
+            cnts.append("4|%s|2|%s|%d" % (hx(o_), hx(str(i)), 30 + i))
+        for dmn in ("0", "4294967295", "2147483648"):
+            amts.append("1|%s|2|%s|%s|9|9" % (hx("channel-1"), hx(dmn), hx("uusdc")))
+            amts.append("1|%s|3|%s|%s|8|8" % (hx("channel-1"), hx(dmn), hx("uusdc")))
+        lines3.append("genload pp=[];pcc=[];pa=[];params=0;amts=[%s];cnts=[%s]" % (",".join(amts), ",".join(cnts)))
+        for i, o_ in enumerate(odd):
+            lines3.append("query DispatchedAmounts %s %s %s %s %s" % (hx("PROTOCOL_IBC"), hx("channel-0"), hx("PROTOCOL_INTERNAL"), hx(o_), hx("uusdc")))
+            lines3.append("query DispatchedCounts %s %s %s %s" % (hx("PROTOCOL_IBC"), hx("channel-0"), hx("PROTOCOL_INTERNAL"), hx(o_)))
+            lines3.append("query DispatchedAmounts %s %s %s %s %s" % (hx("PROTOCOL_INTERNAL"), hx(o_), hx("PROTOCOL_CCTP"), hx(str(i)), hx("uusdc")))
+            lines3.append("query DispatchedCounts %s %s %s %s" % (hx("PROTOCOL_INTERNAL"), hx(o_), hx("PROTOCOL_CCTP"), hx(str(i))))
+        for pn in ("PROTOCOL_IBC", "PROTOCOL_CCTP", "PROTOCOL_HYPERLANE", "PROTOCOL_INTERNAL"):
+            lines3 += ["query DispatchedAmountsBySrc %s nopage" % hx(pn), "query DispatchedAmountsByDst %s nopage" % hx(pn), "query DispatchedCountsBySrc %s nopage" % hx(pn)]
+        lines3 += ["export", "reimport", "export", orb_pkt("recv", 1000, int_fwd(U[1])), "export"]
+        f3 = dict(f2)
+        f3["reimport"] = ["valid", "init", "same", "st"]
         return [Stream("S1-identifiers", lines, fields={"pure": ["_"]}, oracle=c20_oracle),
-                Stream("S3-identifier-in-use", lines2, fields=f2, oracle=pause_oracle)]
+                Stream("S3-identifier-in-use", lines2, fields=f2, oracle=pause_oracle),
+                Stream("S3-identifiers-in-a-loaded-ledger", lines3, fields=f3),
+                Stream("S3-non-ascii-counterparty-in-a-loaded-ledger", non_ascii_ledger_lines(), fields=f3, shrink=False)]
+
+
+def non_ascii_ledger_lines():
+    """the recorded finding (known_findings.json, C20-non-ascii-counterparty): a counterparty identifier with a character outside
+    ASCII passes validation, but as a non-terminal part of a collections key only the first byte of each character is stored: the
+    entry comes back under another identifier, or the listing and the export fail and come back empty. Kept in a stream of its own."""
+    lines, _ = scen.base_setup()
+    o_ = "n\u00f6ble"
+    for g in ("amts=[1|%s|4|%s|%s|5|5];cnts=[1|%s|4|%s|3]" % (hx("channel-0"), hx(o_), hx("uusdc"), hx("channel-0"), hx(o_)),
+              "amts=[4|%s|2|%s|%s|5|5];cnts=[4|%s|2|%s|3]" % (hx(o_), hx("1"), hx("uusdc"), hx(o_), hx("1"))):
+        lines += ["genload pp=[];pcc=[];pa=[];params=0;" + g,
+                  "query DispatchedAmounts %s %s %s %s %s" % (hx("PROTOCOL_IBC"), hx("channel-0"), hx("PROTOCOL_INTERNAL"), hx(o_), hx("uusdc")),
+                  "query DispatchedCounts %s %s %s %s" % (hx("PROTOCOL_INTERNAL"), hx(o_), hx("PROTOCOL_CCTP"), hx("1")),
+                  "query DispatchedAmountsBySrc %s nopage" % hx("PROTOCOL_INTERNAL"), "query DispatchedAmountsByDst %s nopage" % hx("PROTOCOL_INTERNAL"), "export"]
+    return lines
 
 
 def c20_oracle(steps):
@@ -849,6 +891,19 @@ def stats_limit_lines(toks):
             lines.append("query DispatchedAmounts %s %s %s %s %s" % (hx("PROTOCOL_IBC"), hx("channel-1"), hx("PROTOCOL_INTERNAL"), hx("noble"), hx("aeth")))
         lines.append(orb_pkt("recv", 4 * 10 ** 18, cctp_fwd(domain=0), [fee_action([(U[2], "b", 1)])]))
     lines += ["query DispatchedAmountsBySrc %s nopage" % hx("PROTOCOL_IBC"), "query DispatchedCountsBySrc %s nopage" % hx("PROTOCOL_IBC"), "export", "reimport", "export"]
+    # counters at the widths of the machine integers below the last one (a long-lived route, or a validated genesis): the next
+    # transfers are counted like any other
+    rts = [("channel-0", 4, "PROTOCOL_INTERNAL", "noble", int_fwd(U[1])), ("channel-0", 2, "PROTOCOL_CCTP", "0", cctp_fwd(domain=0)),
+           ("channel-1", 4, "PROTOCOL_INTERNAL", "noble", int_fwd(U[1])), ("channel-1", 2, "PROTOCOL_CCTP", "0", cctp_fwd(domain=0)),
+           ("channel-0", 3, "PROTOCOL_HYPERLANE", "1", hyp_fwd(tok, domain=1))]
+    for widths in ([2 ** 31 - 1, 2 ** 32 - 1, 2 ** 63 - 1, 2 ** 63, 2 ** 64 - 2], [2 ** 63 - 2, 2 ** 53, 2 ** 32, 2 ** 63 + 1, 2 ** 31]):
+        cn = ",".join("1|%s|%d|%s|%d" % (hx(ch), pn, hx(cp), wv) for ((ch, pn, _, cp, _), wv) in zip(rts, widths))
+        lines.append("genload pp=[];pcc=[];pa=[];params=0;amts=[];cnts=[%s]" % cn)
+        for _ in range(2):
+            for (ch, pn, pname, cp, fw) in rts:
+                lines.append(orb_pkt("recv", 1000, fw, None, dst_chan=ch))
+                lines.append("query DispatchedCounts %s %s %s %s" % (hx("PROTOCOL_IBC"), hx(ch), hx(pname), hx(cp)))
+        lines += ["query DispatchedCountsBySrc %s nopage" % hx("PROTOCOL_IBC"), "export", "reimport", "export"]
     return lines
 
 
@@ -2479,6 +2534,16 @@ class C11(Base):
         out.append(Stream("S3-igp-hook-corpus", kf, fields={"recv": ["ack", "bal"]}, oracle=c11_igp_oracle))
         out += shared_streams(seed, toks, tier, {"recv": ["ack", "bal", "mv", "st"], "recvh": ["ack", "bal", "hreq", "st"]}, c01_oracle,
                               skip=("attribute-shapes", "pause-levels", "spellings"))
+        # a restart (export, validate, initialise) of a chain on whose orbiter account somebody left coins — of the transferred
+        # denomination, of others, of many: the module comes back as it was and the next transfers go through
+        rs, _ = scen.base_setup()
+        rs += ["reimport", orb_pkt("recv", 1000, int_fwd(U[1]))]
+        for deps in ([("stake", 9)], [("uusdc", 7)], [("uusdc", 7), ("stake", 9)], [("uother", 1), ("aeth", 2 ** 70), ("stake", 1)]):
+            for (dn, am) in deps:
+                rs.append("deposit %s %s %d" % (hx(ORB_BYTES), hx(dn), am))
+            rs += ["reimport", "export", orb_pkt("recv", 1000, int_fwd(U[1])), orb_pkt("recv", 5000, cctp_fwd(domain=0), [fee_action([(U[2], "b", 100)])]),
+                   "genload pp=[];pcc=[];pa=[];params=0;amts=[];cnts=[]", orb_pkt("recv", 1000, int_fwd(U[1])), "reimport", "export"]
+        out.append(Stream("S3-restart-with-coins-on-the-account", rs, fields={"recv": ["ack", "bal", "st"], "reimport": ["valid", "init", "same", "st"], "export": ["st"]}, oracle=c01_oracle))
         return out
 
 
@@ -2755,6 +2820,14 @@ def c18_lines(r, n):
         for L in sorted({0, limit} & set(range(0, 6000))):
             out.append(orb_pkt("recv", 1000, hyp_fwd(toks[0][0], domain=1, passthrough=b"\xcd" * L, meta="0x" + "ab" * r.choice([1, 3, 40]))))
             out.append(orb_pkt("recv", 1000, cctp_fwd(domain=0, passthrough=b"\xab" * L, caller=b"\x05" * 32)))
+        # the limit counts bytes, whatever they are: all-zero payloads, data padded with zeros to the next 32-byte word (the way an ABI
+        # encoder pads), zeros in front, 0xff — at the lengths around the limit and at the word boundaries just above it
+        nxt = (limit // 32 + 1) * 32
+        for L in sorted({max(0, limit - 1), limit, limit + 1, nxt, nxt + 32, limit + 31, limit + 32} & set(range(1, 6000))):
+            k = min(limit, L)
+            for body in (b"\x00" * L, b"\xab" * k + b"\x00" * (L - k), b"\x00" * (L - 1) + b"\x01", b"\xff" * L, b"\xab" * max(0, L - 1) + b"\x00"):
+                if len(body) == L:
+                    out.append(orb_pkt("recv", 1000, cctp_fwd(domain=0, passthrough=body)))
         return out
     lines += probes(0)                       # default parameters
     lines.append("query Params")
@@ -3304,6 +3377,17 @@ class C15(Base):
             m_ = _json.dumps({"orbiter": {"forwarding": int_fwd(U[1]), "pre_actions": [a_]}}, separators=(",", ":"))
             s1.append("pure parse " + hx(m_))
             s1.append(pkt_line("recv", ftpd("transfer/channel-7/uusdc", 1000, ORB, m_)))
+        # acceptance is decided where the packet enters (the adapter's ParsePacket, in front of the hooks), not only in the function the
+        # parser exports: the same memos — well-formed or not — through the whole stack, to the orbiter account
+        r5 = r.fork(5)
+        thr = []
+        for l in s1:
+            if l.startswith("pure parse ") and (r5.chance(1, 2) or len(l) < 120):
+                try:
+                    thr.append(pkt_line("recv", ftpd("transfer/channel-7/uusdc", 1000, ORB, bytes.fromhex(l[len("pure parse "):]).decode("utf-8"))))
+                except Exception:
+                    pass
+        s1 += thr
         rt, expect = c15_roundtrip_build(r.fork(2), self.n(tier, 120, 1200), toks)
         pl, groups = c15_purity_lines(r.fork(3), toks, 16)
         f = {"pure": ["_"]}
